@@ -128,10 +128,11 @@ func c03Judge(c *mon.Ctx, a, b *exact.Shape, family string, corpus, closedA bool
 		}
 	})
 	if scaled && c03Snap == nil {
-		sc := libScales[int(uint64(hashShape(mon.NewH(), b))%uint64(len(libScales)))]
+		enc := allEncs[int(uint64(hashShape(mon.NewH(), b))%uint64(len(allEncs)))]
+		sc := enc.Name
 		c.Try(func() {
 			ic := cfgs[len(cfgs)-1]
-			la, lb := buildLibScaled(a, ic, closedA, sc), buildLibScaled(b, ic, !closedA, sc)
+			la, lb := buildLibEnc(a, ic, closedA, enc), buildLibEnc(b, ic, !closedA, enc)
 			var got bool
 			ev := traced(func() { got = gContains(la, lb) })
 			c.Eval()
@@ -139,7 +140,7 @@ func c03Judge(c *mon.Ctx, a, b *exact.Shape, family string, corpus, closedA bool
 			if got == want {
 				return
 			}
-			at := attributeScaled(ev, sc)
+			at := attributeEnc(ev, enc)
 			// the library's behaviour is exactly scale invariant, so the same keys and the same corpus hash apply
 			h := containsKey("contains", a, b, closedA, ic, got)
 			cs := pairCase(a, b, map[string]interface{}{"family": family, "index": ic.String(), "closed_a": closedA, "scale": sc, "got": got, "want": want, "attribution": at})
@@ -147,7 +148,7 @@ func c03Judge(c *mon.Ctx, a, b *exact.Shape, family string, corpus, closedA bool
 				c.KnownOrViolation("F24", "contains covered-hole", "B covers a hole of A (scaled)", cs)
 				return
 			}
-			detail := fmt.Sprintf("%s contains %s with every coordinate multiplied by %g: library %v, exact %v", a.Kind, b.Kind, sc, got, want)
+			detail := fmt.Sprintf("%s contains %s under the exact encoding %s: library %v, exact %v", a.Kind, b.Kind, sc, got, want)
 			if id, _ := classifyWrong(at, corpus, h); id != "" {
 				c.KnownOrViolation(id, "contains-scaled", detail, cs)
 			} else {
